@@ -1,6 +1,7 @@
 import SJ.Proofs.LexTables
 import SJ.Proofs.LexCorrect
 import SJ.Proofs.LexTopParser
+import SJ.Proofs.LexTopF32
 /-!
 # C07 — float_roundtrip: decimal → float conversion is correctly rounded
 
@@ -284,13 +285,17 @@ example : (Model.Machine.parseTop ⟨{ fr := true }, .reader, .value⟩ [0x31, 0
     `f64`, 9 for `f32` —, written with a fraction or an exponent, exponent part at most `e-308`-sized, whose exact value
     rounds to nearest-even to the float printed), serialise-then-deserialise returns every finite `f64` and every finite
     `f32` bit for bit (`-0.0` and subnormals included) under `float_roundtrip`: the parser's result on the printed text is
-    the float (`f32`: its exact widening, which serde's `as f32` maps back to the same pattern). -/
+    the float (`f32`: de.rs hands its exact widening to the visitor, and the visitor's `as f32` — `F64.toF32` — maps
+    that back to the same pattern: second conjunct). -/
 theorem c07_roundtrip (ext : Spec.Program.Ext) (hext : Spec.Program.ExtOK ext) (hr : RyuShortest ext) :
     (∀ b : UInt64, Spec.Program.finite64 b = true →
       deFloatRoundtrip false (Spec.Canon.partsOf (Spec.Number.splitNumber (ext.ryu64 b))) = .f64 b) ∧
     (∀ b : UInt32, Spec.Program.finite32 b = true →
-      deFloatRoundtrip true (Spec.Canon.partsOf (Spec.Number.splitNumber (ext.ryu32 b))) = .f64 (F32.toF64 b)) :=
-  ⟨fun b hb => roundtrip64 ext hext hr b hb, fun b hb => roundtrip32 ext hext hr b hb⟩
+      deFloatRoundtrip true (Spec.Canon.partsOf (Spec.Number.splitNumber (ext.ryu32 b))) = .f64 (F32.toF64 b) ∧
+      F64.toF32 (F32.toF64 b) = b) :=
+  ⟨fun b hb => roundtrip64 ext hext hr b hb,
+   fun b hb => ⟨roundtrip32 ext hext hr b hb,
+     SJ.Proofs.LexTopF32.toF32_toF64 b (by rw [← SJ.Proofs.LexTopF32.finite32_eq_isFinite]; exact hb)⟩⟩
 
 /-- non-vacuity of `RyuText`/the nearest-value clause on `5e-324` (the least subnormal, as `ryu` prints it) -/
 example : RyuText [0x35, 0x65, 0x2d, 0x33, 0x32, 0x34] ∧
